@@ -71,6 +71,7 @@ def _split_depth0(s, seps):
     """Split s at the separators (strings) occurring at brace depth 0.
     Returns (pieces, seps_found).  Longest separator wins."""
     seps = sorted(seps, key=len, reverse=True)
+    firsts = set(sep[0] for sep in seps)
     pieces, found = [], []
     depth, start, i, n = 0, 0, 0, len(s)
     while i < n:
@@ -79,7 +80,7 @@ def _split_depth0(s, seps):
             depth += 1
         elif ch == '}':
             depth -= 1
-        elif depth == 0:
+        elif depth == 0 and ch in firsts:
             hit = None
             for sep in seps:
                 if s.startswith(sep, i):
